@@ -173,21 +173,20 @@ func (h *responseCache) insert(entry *cacheEntry) {
 	}
 	h.mux.Lock()
 	defer h.mux.Unlock()
-	// See if we need to make room for the new entry
-	for h.currentSizeBytes+len(entry.responseData) >= h.maxBytes {
+	// See if we need to make room for the new entry: remove the entries that expire first, until it fits or the cache is empty.
+	for h.head != nil && h.currentSizeBytes+len(entry.responseData) > h.maxBytes {
 		_ = h.pop()
 	}
-	if h.head == nil {
-		// First entry
+	// Insert in the linked list, ordered by expiration time
+	if h.head == nil || entry.expirationTime.Before(h.head.expirationTime) {
+		// First entry, or it expires before all others: it becomes the new head
+		entry.next = h.head
 		h.head = entry
 	} else {
-		// Insert in the linked list, ordered by expiration time
+		// Insert after the last entry that expires before the new entry
 		var current = h.head
 		for current.next != nil && current.next.expirationTime.Before(entry.expirationTime) {
 			current = current.next
-		}
-		if current == h.head {
-			h.head = entry
 		}
 		entry.next = current.next
 		current.next = entry
